@@ -66,6 +66,28 @@ Theorem c23_eq_char : forall a b, sid_eq a b = true <-> a = b.
 Proof. exact sid_eq_char. Qed.
 Print Assumptions c23_eq_char.
 
+(* Identity is the PAIR of CompIDs -- no rendering of it takes part in the comparison. *)
+Theorem c23_identity_is_pair : forall a b, sid_eq a b = true <-> sid_snd a = sid_snd b /\ sid_tgt a = sid_tgt b.
+Proof. exact sid_eq_pair. Qed.
+Print Assumptions c23_identity_is_pair.
+
+(* In particular not the printable id "<Begin>:<sender>-><target>" (SessionID::make_id / get_id), which is not
+   injective because "->" may occur inside a CompID: (A->B, C) and (A, B->C) print identically for every
+   BeginString, yet they are different identities (== false, != true).  And the session model agrees: the
+   initiator (A->B, C) treats the Logon response 49=B->C 56=A as a mismatch (state 2), 49=C 56=A->B completes. *)
+Theorem c23_printable_id_not_injective :
+  (forall begin, amb1 <> amb2 /\ sid_print begin amb1 = sid_print begin amb2 /\
+                 sid_eq amb1 amb2 = false /\ sid_ne amb1 amb2 = true) /\
+  (let ops := demo_amb_ops id_BC [65] in
+   sid_print begin_42 (mkSid id_AB [67]) = sid_print begin_42 (mkSid [65] id_BC) /\
+   c23_hist_ok ops (run_history demo_schema ops) = true /\
+   map (fun st => match st_snap st with Some sn => sn_state sn | None => 99 end) (run_history demo_schema ops) = [5; 2]) /\
+  (let ops := demo_amb_ops [67] id_AB in
+   c23_hist_ok ops (run_history demo_schema ops) = true /\
+   map (fun st => match st_snap st with Some sn => sn_state sn | None => 99 end) (run_history demo_schema ops) = [5; 1]).
+Proof. split; [exact sid_print_not_injective|vm_compute; repeat split]. Qed.
+Print Assumptions c23_printable_id_not_injective.
+
 (* Session identities compare unequal exactly when they are not equal (since the repair ab2c959). *)
 Theorem c23_neq : forall a b, sid_ne a b = negb (sid_eq a b).
 Proof. exact sid_ne_negb_eq. Qed.
